@@ -131,6 +131,9 @@ func smtIntToGo(v string) (int64, bool) {
 	return n, err == nil
 }
 
+// replayTimeout is the go test timeout of injected tests (longer in the thorough tier, where bounded drivers widen their space)
+var replayTimeout = "120s"
+
 type replayDriver struct {
 	Pkg     string // package directory relative to the repo, e.g. internal/hashing
 	Body    string
@@ -316,7 +319,7 @@ func runOverlayTestRW(repo, pkg, testSrc string, flags []string, confirm string,
 	ovData, _ := json.Marshal(ov)
 	ovFile := filepath.Join(tmp, "overlay.json")
 	os.WriteFile(ovFile, ovData, 0o644)
-	args := []string{"test", "-overlay", ovFile, "-vet=off", "-v", "-count=1", "-timeout", "120s"}
+	args := []string{"test", "-overlay", ovFile, "-vet=off", "-v", "-count=1", "-timeout", replayTimeout}
 	args = append(args, flags...)
 	args = append(args, "-run", "TestVerifReplay", "./"+pkg+"/")
 	cmd := exec.Command("go", args...)
